@@ -340,6 +340,17 @@ def run(ck, build):
     ck.ob(bool(ics) and not esc, "R-C17-USABLE", g.name, "reseed-always-requests[%s]" % label,
           "every path through tinyjambu_prng_reseed makes the entropy request", "a path through tinyjambu_prng_reseed skips the entropy request yet the function still mixes and reports a status",
           where=relpath("%s:%d" % (g.file, g.line)), path=ir.path_desc(g, esc[0][1]) if esc else None)
+    # the bytes delivered reach the hash: byte provenance through the seeding functions (the construction rules of C15, seeding part):
+    # what is hashed as V / additional input is exactly what the source wrote into the buffer (nothing overwrites it in between), and
+    # the buffer has a defined content (zero / the old V) when the source is asked, so a short delivery still leaves a defined, mixed state
+    from . import kdflib
+
+    def _seed_ob(cond, rule, fn, cons, ok_, bad_, where=None):
+        base = cons.split("[")[0]
+        if base.endswith(("-prefill", "-V-V", "-V-input")) or base == "reseed-V-V":
+            return ck.ob(cond, "R-C17-USABLE", fn, "delivered-bytes-" + cons, ok_, bad_, where=where)
+        return cond
+    kdflib.check_prng(_seed_ob, mod, label, generate=False)
     # the buffers handed to the callback are the ones mixed
     f1 = mod.fn("tinyjambu_prng_init_user")
     f2 = mod.fn("tinyjambu_prng_reseed")
